@@ -53,6 +53,7 @@ type Stats struct {
 	SharedDup  int             // executions of the shared choice tree repeated by jobs other than job 0 (not counted)
 	First      *Outcome        // the default (deviation-free) execution
 	Finals     map[uint64]bool // distinct final state keys of complete executions
+	MaxGs      int             // largest number of goroutines created in one execution
 }
 
 // Violation is a failed check with the schedule that produced it.
@@ -138,6 +139,9 @@ func Explore(sc *Scenario, opts Options) (Stats, []Violation) {
 			st.First = o
 		}
 		st.Steps += int64(o.Steps)
+		if o.Gs > st.MaxGs {
+			st.MaxGs = o.Gs
+		}
 		if len(o.Points) > st.MaxPoints {
 			st.MaxPoints = len(o.Points)
 		}
